@@ -21,8 +21,21 @@ VIEW = 'norm'
 # the objective f + sum w*g*g is built with the crate's own arithmetic: `&Parameter * Function`, `Function * Function`,
 # `Function + Function`.  C09 therefore re-decides the C02 rule families those operators go through (a Mul kernel that
 # merges terms under colliding keys by overwriting breaks g*g although nothing in the penalty methods changed)
-RELIES_ON = {'C02': ['C02.keys', 'C02.kernel', 'C02.dispatch',
+RELIES_ON = {'C14': ['C14.relax_constraint'],       # the summary open_relax_loops uses (see there); re-decided on the same tree
+             'C02': ['C02.keys', 'C02.kernel', 'C02.dispatch',
                      'C02.deleg/&v1::Parameter_Mul_v1::Function', 'C02.deleg/v1::Function_Mul_v1::Function', 'C02.deleg/v1::Function_Add_v1::Function']}
+
+def _calls_relax_constraint(ctx):
+    """the C14 summary is needed (and re-decided) only on a tree whose penalty methods call relax_constraint; on the pinned tree they
+    do not, and a defect in relax_constraint is then C14's to report, not C09's"""
+    for name in ('penalty_method', 'uniform_penalty_method'):
+        for b in ctx.F.bodies.values():
+            if b.kind == 'fn' and b.name.endswith('::' + name) and 'Instance' in b.name:
+                if any(c.item == 'relax_constraint' for c in b.calls): return True
+    return False
+
+
+RELIES_IF = {'C14': _calls_relax_constraint}
 
 INST = 'v1::Instance'
 CARRIED = ['description', 'decision_variables', 'sense', 'constraint_hints', 'decision_variable_dependency']
@@ -1268,10 +1281,108 @@ def open_for_over_bound_iterators(ctx, body):
     return nb
 
 
+RELAX_FN = re.compile(r'impl v1::Instance>::relax_constraint$')
+
+
+def open_relax_loops(ctx, body):
+    """`while let Some(c) = self.constraints.first() { .. self.relax_constraint(c.id, reason, params)?; }` (also `last()`,
+    `loop { let Some(c) = .. else { break }; .. }`)  ->  `for c in self.constraints.drain(..) { ..
+    self.removed_constraints.push(RemovedConstraint { constraint: Some(c), removed_reason: reason, removed_reason_parameters: params }) }`.
+    Uses the summary of relax_constraint that C14 decides on the same tree (RELIES_ON C14.relax_constraint): on success exactly
+    the first element with the given id moves from constraints to removed_constraints, wrapped with the given reason and
+    parameters, nothing else is written; the only Err is "id not in the list".  Hence, when the id is read from the element just
+    obtained from self.constraints and nothing else writes to `self` in the round, the call cannot fail (its `?` is dead) and
+    every round moves one element until the list is empty: a walk over all active constraints.
+    Conditions checked here: the loop header obtains `first()` / `last()` of self.constraints and leaves the loop on None;
+    exactly one relax_constraint call in the loop, on every way round, on `self`, with the id of that element; the call's
+    result is consumed by `?` (or the Err side cannot come back into the loop); no other `&mut` borrow of `self` or of
+    `self.constraints` inside the loop."""
+    from .. import normalize as NZ
+    from ..facts import Body
+    cm = _callmap(body)
+    rw = None
+    for h, blocks in sorted(body.loops().items()):
+        # the `first()` / `last()` at the top of the round: only borrows / derefs of the list before it
+        cands = [c for c in body.calls if c.bb in blocks and c.item in ('first', 'last') and INHERENT_SEQ_OWNER.search(c.name) and c.args and not c.dst['p']
+                 and vec_of(body, c.args[0]) == (1, 'constraints')]
+        if len(cands) != 1: continue
+        hc = cands[0]
+        before = [b2 for b2 in blocks if b2 != hc.bb and not body.dominates(hc.bb, b2)]
+        if any(b2 in cm and not REF_TRANSPARENT.search(T.strip_generics_tail(cm[b2].name)) for b2 in before) or not body.dominates(h, hc.bb): continue
+        o = hc.dst['l']
+        arms = T.option_arms(body, o)
+        if len(arms) != 1: continue
+        sb, m, els = arms[0]
+        some_bb = m.get(1, els); none_bb = m.get(0, els)
+        if some_bb not in blocks or none_bb in blocks: continue
+        rel = [c for c in body.calls if c.bb in blocks and RELAX_FN.search(c.name)]
+        if len(rel) != 1: continue
+        rc = rel[0]
+        if len(rc.args) != 4 or root_of(body, rc.args[0], REF_TRANSPARENT)[0] != 1: continue
+        r_, fs_, _c = root_of(body, rc.args[1])
+        if r_ != o or [f for a_, f in fs_][-1:] != ['id'] or not any(a_.endswith('Option::Some') for a_, f in fs_): continue
+        if not T.must_pass(body, some_bb, {h}, {rc.bb}): continue
+        ta = T.try_arms(body, rc.dst['l'])
+        if ta is None: continue
+        cont_bb, brk_bb, br = ta
+        if h in body.reach([brk_bb]): continue
+        self_ref = rc.args[0]['pl']['l'] if rc.args[0]['k'] in ('copy', 'move') else None
+        other_mut = False; pl_c = None
+        for b2 in blocks:
+            for st in body.blocks[b2]['st']:
+                if 'rv' not in st: continue
+                rv = st['rv']
+                if rv['k'] in ('ref', 'rawptr') and rv['pl']['l'] == 1:
+                    fs2 = [q for q in rv['pl']['p'] if isinstance(q, dict) and 'f' in q]
+                    if fs2 and fs2[0]['f'] == 'constraints' and pl_c is None: pl_c = rv['pl']
+                    if (rv.get('mut') or rv['k'] == 'rawptr') and (not fs2 or fs2[0]['f'] == 'constraints') and st['dst']['l'] != self_ref: other_mut = True
+                if st['dst']['l'] == 1 and st['dst']['p']: other_mut = True
+        if other_mut or pl_c is None: continue
+        # ---- rewrite
+        if rw is None: rw = NZ.Rewriter(body.d)
+        B = rw.blocks; span = hc.span; line = (span or {}).get('lo', 0)
+        import copy as _copy
+        place_c = _copy.deepcopy(pl_c)
+        place_r = _copy.deepcopy(pl_c)
+        for q in place_r['p']:
+            if isinstance(q, dict) and q.get('f') == 'constraints': q['f'] = 'removed_constraints'
+        rr = rw.new_local('&mut std::vec::Vec<v1::Constraint>'); rf = rw.new_local('std::ops::RangeFull'); IT = rw.new_local('std::vec::Drain<v1::Constraint>')
+        itm = rw.new_local('v1::Constraint'); er = rw.new_local('&v1::Constraint')
+        h2 = rw.new_block()
+        ph = rw.new_block([NZ._ref(rr, place_c, True, line), NZ._agg(rf, 'std::ops::RangeFull', [], line=line)],
+                          NZ.mk_call('std::vec::Vec::<v1::Constraint>::drain::<std::ops::RangeFull>', 'std::vec::Vec::<T>::drain', None, 'std::vec::Vec::<T>', 'drain',
+                                     [NZ._mv(rr), NZ._mv(rf)], IT, h, span))
+        def retarget(tm, old, new_):
+            if tm['k'] in ('goto', 'drop', 'assert') and tm['t'] == old: tm['t'] = new_
+            elif tm['k'] == 'call' and tm['t'] == old: tm['t'] = new_
+            elif tm['k'] == 'switch':
+                tm['ts'] = [[v, (new_ if tb == old else tb)] for v, tb in tm['ts']]
+                if tm['else'] == old: tm['else'] = new_
+        for b2 in range(len(B)):
+            if b2 not in blocks and b2 not in (ph, h2) and not B[b2]['cleanup']: retarget(B[b2]['term'], h, ph)
+        o2, some2 = NZ.Normalizer(ctx.F, None, True)._emit_next(rw, h2, IT, span, none_bb)
+        B[some2]['st'] = [NZ._use(itm, NZ._mv(o2, NZ.SOME0), line), NZ._ref(er, NZ._pl(itm), False, line)]
+        rw.goto(some2, some_bb)
+        B[h]['term'] = {'k': 'goto', 't': h2}
+        NZ._subst_prefix(rw, o, NZ.SOME0, er, skip_blocks={some2})
+        # the call: the element goes to removed_constraints with the given reason and parameters; it cannot fail
+        sm = rw.new_local('std::option::Option<v1::Constraint>'); rcl = rw.new_local('v1::RemovedConstraint')
+        r2 = rw.new_local('&mut std::vec::Vec<v1::RemovedConstraint>'); out = rw.new_local('()')
+        blk = B[rc.bb]; t = blk['term']
+        blk['st'] += [NZ._agg(sm, 'std::option::Option::Some', [NZ._mv(itm)], line=line),
+                      NZ._agg(rcl, 'v1::RemovedConstraint', [NZ._mv(sm), t['args'][2], t['args'][3]], ['constraint', 'removed_reason', 'removed_reason_parameters'], line),
+                      NZ._ref(r2, place_r, True, line)]
+        blk['term'] = NZ.mk_call('std::vec::Vec::<v1::RemovedConstraint>::push', 'std::vec::Vec::<T>::push', None, 'std::vec::Vec::<T>', 'push', [NZ._mv(r2), NZ._mv(rcl)], out, cont_bb, t.get('span'))
+    if rw is None: return body
+    d = dict(rw.d); d['fn'] = body.name + '#eager'; d['parent'] = body.parent
+    nb = Body(d); nb.facts = ctx.F
+    return nb
+
+
 def open_up(ctx, body):
     """the body with directly called local closures inlined, `map` below `enumerate` opened, and lazily mapped iterators
     handed to draining consumers made explicit"""
-    return eagerise(ctx, open_unzip(ctx, open_maps_below_enumerate(ctx, open_result_combinators(ctx, open_counter_loops(ctx, open_for_over_bound_iterators(ctx, inline_closure_calls(ctx, body)))))))
+    return eagerise(ctx, open_unzip(ctx, open_maps_below_enumerate(ctx, open_result_combinators(ctx, open_counter_loops(ctx, open_for_over_bound_iterators(ctx, inline_closure_calls(ctx, open_relax_loops(ctx, body))))))))
 
 
 # `&p * g` is `Linear::from(&p) * g` (parameter.rs): the weight may enter a product as the Parameter itself or converted
